@@ -233,3 +233,35 @@ register('C16', title='edge recomputation',
          assumptions=['edge cycle that is the first / last row of the table: unchanged NaN or the one-sided value accepted; a cycle between '
                       'two bursts: either direction accepted'],
          quick_shards=8, thorough_shards=16)
+
+register('C17', title='interpolated phase',
+         deciding=['extrema_interpolated_phase'],
+         rule='exhaustive: every placement of an alternating extremum sequence (both starting kinds, >= 2 extrema, gaps >= 2) on arrays of '
+              'length 3..N (N=13 quick, 19 thorough), without midpoints and with every admissible midpoint position per flank (inclusive of the '
+              'flank ends; completely while the product of choices <= 64 / 2048, otherwise all-first / all-middle / all-last - counted); '
+              'generated: cyclepoints from find_extrema / find_zerox on all families (adversarial tails over-sampled), boundary in {0,1,5}, all '
+              'first_extrema values, with and without midpoints. Oracle: the clauses of the statement evaluated on the returned array (length, '
+              'finite exactly on [first, last cyclepoint], |phase| <= pi, anchors 0 / +-pi / -+pi/2, no decrease except into/out of a trough). '
+              'Non-trivial = >= 2 peaks and >= 2 troughs.',
+         floors={'quick': {'nontrivial': 500, 'classes': {'last_cyclepoint=t:to_end=0': 100, 'last_cyclepoint=p:to_end=1': 100,
+                                                          'midpoint_coincides_with_extremum': 100}},
+                 'thorough': {'nontrivial': 5000}},
+         assumptions=['cyclepoint sets with two extrema closer than 2 samples, non-alternating extrema or midpoints outside the extrema span are '
+                      'outside the quantifier (counted, skipped)'],
+         quick_shards=8, thorough_shards=16, thorough_timeout=7200)
+
+register('C18', title='windowing utilities',
+         deciding=['limit_df', 'limit_signal', 'drop_samples_df', 'split_samples_df', 'flatten_dfs'],
+         rule='generated: cycle tables of both centrings and methods (with and without burst columns) x windows {random, exactly on cycle '
+              'boundaries, start None, stop None, both None, window containing no cycle} x reset_indices; limit_signal on the matching time '
+              'axis; split / drop on every table; flatten_dfs on 1-D and 2-D lists of epoch tables with list / array labels and custom column '
+              'name. Monitors (snapshot + post-condition): ordered row subset, inside cycles kept / outside cycles dropped (a boundary within '
+              '1e-6 samples of a limit: either), feature values unchanged, ALL sample_* columns shifted by one common offset (0 without reset), '
+              'no exception for None limits or trough-centred tables; limit_signal == samples with start <= t < stop; column partition and '
+              'value equality; row provenance by a marker column: each row carries the label of its table. Non-trivial (limit) = window that '
+              'keeps >= 1 cycle and cuts >= 1.',
+         floors={'quick': {'nontrivial': 100, 'classes': {'limit_df_window_cuts_and_keeps': 50, 'limit_df_boundary_coincidence': 30,
+                                                          'limit_df_window_without_cycle': 20, 'flatten:1d': 10, 'flatten:2d': 10}},
+                 'thorough': {'nontrivial': 5000}},
+         assumptions=['the common offset\'s value is recorded, only its uniformity is asserted (that is what the statement says)'],
+         quick_shards=8, thorough_shards=16)
